@@ -557,7 +557,8 @@ def fold_predicates(ck: Checker, rule='C12.FOLD', real_iterator=True):
             return it.instantiate(TTc, ([list(r) for r in T],)), tm
         if kind == 'PyFunction':
             return it.instantiate(PFc, (f,), {'input_size': n}), pm
-        inst = Instance(CCc)
+        it.steps = 0
+        inst = it.instantiate(CCc)     # (through __init__: whatever fields the class keeps are there)
         ins = [f'i{k}' for k in range(n)]
         inst._inputs = ins
         # a structure realising the function: an output that is a projection is the input gate itself (an input that is
@@ -667,3 +668,7 @@ def run(ck: Checker):  # noqa: F811
     ck.rule('C12.ITER', 'input_iterator_with_fixed_sum folded as a generator run to completion: every assignment of the requested weight (xor the negation mask) exactly once and each yielded list a fresh object, so a callable that returns or keeps its argument cannot be compared with itself')
     fold_predicates(ck, real_iterator=fold_iterator(ck))
     fold_models_and_wrappers(ck)
+    ck.rule('C12.HIST', 'Circuit.get_truth_table folded at random points of seeded histories of public mutations (input reordering, fixing inputs, compositions, conversions): the table of the circuit as it is then, the basis of every other circuit query (shared machinery with C02.HIST)')
+    from .. import history_fold
+    history_fold.fold_histories(ck, 'C12.HIST', only=(), observers=('get_truth_table',), n_hist=(120 if ck.tier == 'quick' else 1200))
+    ck.floor('C12.HIST', 1)
